@@ -96,6 +96,9 @@ def buildOp (st : BState) (op : String) : BState :=
       | some b, some s => { st with msg := setHdr st.msg code b (.str b s) }
       | _, _ => fail
     | _, _ => fail
+  | ["clr", c] => match c.toNat? with
+    | some code => { st with msg := applyEdit st.msg (.delete code) }
+    | none => fail
   | ["b", c, v] =>
     match basicOfCode c with
     | some b =>
